@@ -216,7 +216,9 @@ def heap_program_stream(histories, r, res):
         break the tie exactly as for the store model; effect-summary details (own-copy footprint, copy count, error
         exit) are counted;
     (b) program model vs store model (Iso.write): error exit, copy count, footprint (as a set), changed locations and
-        every snapshot must agree - two independently written models of the same code; a mismatch is a model bug and
+        the emitted tokens (span open / close, SAMI blank sync), open_span after the call and every snapshot must agree -
+        two independently written models of the same code (the programs take nothing from Iso.write since the rendering
+        state machines and the instance registers are part of them); a mismatch is a model bug and
         breaks the tie (it cannot be caused by a harmless rewrite of pycaption);
     (c) request 903: the ownership analysis accepts the eight writer programs and rejects the six variants that skip
         the copy / copy shallowly / assign before copying (the proof obligation, re-evaluated in the extracted code)."""
@@ -224,7 +226,7 @@ def heap_program_stream(histories, r, res):
     dist = res["distribution"]
     batch = [C.model_ops(h, o, r["pristine"]) for h, o in zip(histories, r["results"])]
     progs = C.run_model(batch, 902)
-    n_writes, by_writer, assigned, raised = 0, {}, 0, 0
+    n_writes, by_writer, assigned, raised, emitting = 0, {}, 0, 0, 0
     details, mm = [], 0
     for hi, (h, o, mp, ms) in enumerate(zip(histories, r["results"], progs, r["models"])):
         for d in C.compare(h, o, mp, r["pristine"], "C09"):
@@ -243,7 +245,8 @@ def heap_program_stream(histories, r, res):
             by_writer[op["kind"]] = by_writer.get(op["kind"], 0) + 1
             assigned += 1 if b["fp"] else 0
             raised += 1 if b["err"] else 0
-            for key in ("err", "copies", "changed_below"):
+            emitting += 1 if b["tokens"] else 0
+            for key in ("err", "copies", "changed_below", "tokens", "open"):
                 if a[key] != b[key]:
                     mm += 1
                     r["disagreements"].append((hi, {"i": i, "what": "heap program vs store model: %s" % key,
@@ -253,7 +256,8 @@ def heap_program_stream(histories, r, res):
                 r["disagreements"].append((hi, {"i": i, "what": "heap program vs store model: footprint on the copy",
                                                 "model": sorted(set(a["fp"])), "impl": sorted(set(b["fp"]))}))
     verdict = oracle_batch([(903, [])])[0]
-    ok903 = (verdict != [-1] and all(verdict[0]) and len(verdict[0]) == 8 and not any(verdict[1]) and len(verdict[1]) == 6)
+    ok903 = (verdict != [-1] and all(verdict[0]) and len(verdict[0]) == 8 and not any(verdict[1]) and len(verdict[1]) == 6
+             and all(verdict[2]) and len(verdict[2]) == 8 and not any(verdict[3]) and len(verdict[3]) == 5)
     if not ok903:
         r["disagreements"].append((0, {"i": 0, "what": "ownership analysis: writer programs accepted / variants rejected",
                                        "model": verdict}))
@@ -263,7 +267,8 @@ def heap_program_stream(histories, r, res):
         counts[key] = counts.get(key, 0) + 1
     dist["heap_programs"] = {"writes_executed": n_writes, "by_writer": by_writer, "writes_that_assign_on_their_copy": assigned,
                              "writes_that_raise": raised, "mismatches_with_store_model": mm,
-                             "ownership_analysis_8_accepted_6_variants_rejected": bool(ok903),
+                             "ownership_and_assigned_before_read_analyses_8_accepted_11_variants_rejected": bool(ok903),
+                             "writes_that_emit_tokens": emitting,
                              "detail_mismatches_with_code": counts,
                              "detail_examples": [{"what": d["what"], "model": d.get("model"), "impl": d.get("impl"),
                                                   "op": {k: v for k, v in histories[hi][d["i"]].items()
